@@ -129,6 +129,8 @@ class FormWorld:
         self._n_objects = 0
 
     # ------------------------------------------------------------------ stdlib / builtins
+    _interned: dict = None
+
     def _warn(self, *a, **k):
         self.warnings.append(a[0] if a else "")
 
@@ -261,6 +263,20 @@ class FormWorld:
             o.attrs["ufl_id"] = lambda: o.attrs["_ufl_id"]
 
     def new(self, qualname, *args, **kwargs):
+        if getattr(self, "intern", False):
+            # aliasing world: an identical constructor call hands back the very same object, so that equal
+            # sub-objects of different values are shared by identity (as after replace / reconstruct)
+            def k(x):
+                if isinstance(x, (tuple, list)):
+                    return tuple(k(y) for y in x)
+                if isinstance(x, (int, float, complex, str, bool, type(None))):
+                    return (type(x).__name__, x)
+                return ("id", id(x))
+
+            key = (qualname, k(args), tuple(sorted((n, k(v)) for n, v in kwargs.items())))
+            if key not in self._interned:
+                self._interned[key] = (self.ip.call(self.K(qualname), list(args), dict(kwargs), None, None), args, kwargs)
+            return self._interned[key][0]
         return self.ip.call(self.K(qualname), list(args), dict(kwargs), None, None)
 
     def cell(self, name="triangle", tdim=2):
